@@ -36,7 +36,7 @@ ASSUMPTIONS = ["explicit key mappings (the inferred map is C17's subject)", "pan
 REQUIRED_CLASSES = {t: ["c12:ids=str", "c12:ids=noncontig", "c12:ids=float", "c12:renamed", "c12:3D",
                         "c12:malformed:duplicate_id", "c12:malformed:unknown_parent", "c12:malformed:self_link",
                         "c12:malformed:missing_column", "c12:malformed:unmapped_key", "part:geff",
-                        "c12:crossed_single_value_names", "c12:non_default_index", "c12:via_csv_file", "c12:legacy_axis_keys", "c12:features_arg", "c12:geff_malformed:duplicate_id",
+                        "c12:crossed_single_value_names", "c12:non_default_index", "c12:mixed_int_float_position_columns", "c12:via_csv_file", "c12:legacy_axis_keys", "c12:features_arg", "c12:geff_malformed:duplicate_id",
                         "c12:geff_malformed:unknown_parent", "c12:geff_malformed:self_link"]
                     for t in ("quick", "thorough")}
 
@@ -89,6 +89,11 @@ def sources(draw, geff=False):
                       "ci": draw(st.integers(-5, 50)), "cf": draw(st.integers(0, 1000)) / 8.0,
                       "cs": draw(st.sampled_from(["a", "bb", "x y", "Z"])),
                       "ew": draw(st.integers(1, 9)) / 2.0})
+    # some axes hold integers (a z plane index next to sub-pixel y/x): their columns are int-typed
+    int_axes = [i for i in range(nsp) if draw(st.integers(0, 3)) == 0]
+    for m in nodes:
+        for i in int_axes:
+            m["pos"][i] = int(m["pos"][i])
     renamed = draw(st.booleans())
     axes = ["z", "y", "x"][-nsp:]
     keys = ["time", "id", "parent_id", "uid", "ci", "cf", "cs", "cl", *axes]
@@ -109,6 +114,7 @@ def sources(draw, geff=False):
         cols[c] = k
         crossed = len(set(cols.values())) == len(cols)
     return {"nodes": nodes, "nsp": nsp, "idkind": idkind, "cols": cols, "renamed": renamed, "crossed": crossed,
+            "int_axes": int_axes,
             "pos_order": list(pos_order), "customs": customs,
             "root": draw(st.sampled_from(["minus1", "nan", "empty"])),
             "shuffle": draw(st.integers(0, 8)), "index_mode": draw(st.sampled_from([0, 0, 1, 2, 3, 4])),
@@ -345,6 +351,8 @@ def _classify(res, inp, part):
         res.tags.append("c12:crossed_single_value_names")
     if inp.get("index_mode"):
         res.tags.append("c12:non_default_index")
+    if inp.get("int_axes") and len(inp["int_axes"]) < inp["nsp"]:
+        res.tags.append("c12:mixed_int_float_position_columns")
     if inp["nsp"] == 3:
         res.tags.append("c12:3D")
     if has_edge and (inp["renamed"] or inp["idkind"] != "contig" or inp["customs"] or inp["nsp"] == 3):
